@@ -32,6 +32,8 @@ def group_of(key):
             return {"wiregen"}  # regenerated statement by statement (gen/GenWire.v, SyncWire.v)
         return {"skel"} if recv in PACKET_TYPES else {"wire_enc"}
     if name in DEC_METHODS:
+        if recv in WIRE_TYPES and name == "UnmarshalBinary":
+            return {"wiregen"}  # regenerated statement by statement (gen/GenWireDec.v, SyncWireDec.v)
         return {"skel"} if recv in PACKET_TYPES else {"wire_dec"}
     return {"api"}
 
@@ -60,25 +62,25 @@ PROP_GROUPS = {
 }
 
 PROP_SYNC = {
-    "C01": ["gen/GenConsts.v", "gen/SyncEnc.v", "gen/SyncDec.v", "gen/SyncMisc.v", "gen/SyncApi.v", "gen/SyncAcc.v", "gen/SyncWire.v"],
+    "C01": ["gen/GenConsts.v", "gen/SyncEnc.v", "gen/SyncDec.v", "gen/SyncMisc.v", "gen/SyncApi.v", "gen/SyncAcc.v", "gen/SyncWire.v", "gen/SyncWireDec.v"],
     "C02": ["gen/GenConsts.v", "gen/SyncEnc.v", "gen/SyncMisc.v", "gen/SyncApi.v", "gen/SyncAcc.v", "gen/SyncWire.v"],
-    "C03": ["gen/GenConsts.v", "gen/SyncDec.v", "gen/SyncMisc.v", "gen/SyncAcc.v"],
-    "C04": ["gen/SyncDec.v", "gen/SyncMisc.v"],
-    "C05": ["gen/SyncDec.v", "gen/SyncMisc.v"],
-    "C06": ["gen/SyncDec.v", "gen/SyncMisc.v"],
-    "C07": ["gen/SyncDec.v", "gen/SyncMisc.v"],
-    "C08": ["gen/SyncDec.v", "gen/SyncMisc.v"],
-    "C09": ["gen/GenConsts.v", "gen/SyncDec.v", "gen/SyncMisc.v"],
+    "C03": ["gen/GenConsts.v", "gen/SyncDec.v", "gen/SyncMisc.v", "gen/SyncAcc.v", "gen/SyncWireDec.v"],
+    "C04": ["gen/SyncDec.v", "gen/SyncMisc.v", "gen/SyncWireDec.v"],
+    "C05": ["gen/SyncDec.v", "gen/SyncMisc.v", "gen/SyncWireDec.v"],
+    "C06": ["gen/SyncDec.v", "gen/SyncMisc.v", "gen/SyncWireDec.v"],
+    "C07": ["gen/SyncDec.v", "gen/SyncMisc.v", "gen/SyncWireDec.v"],
+    "C08": ["gen/SyncDec.v", "gen/SyncMisc.v", "gen/SyncWireDec.v"],
+    "C09": ["gen/GenConsts.v", "gen/SyncDec.v", "gen/SyncMisc.v", "gen/SyncWireDec.v"],
     "C10": ["gen/SyncEnc.v", "gen/SyncMisc.v", "gen/SyncString.v", "gen/SyncWire.v"],
     "C11": ["gen/SyncEnc.v", "gen/SyncMisc.v", "gen/SyncApi.v", "gen/SyncEffects.v", "gen/SyncWire.v"],
     "C12": ["gen/GenConsts.v", "gen/SyncEnc.v", "gen/SyncApi.v", "gen/SyncAcc.v", "gen/SyncWire.v"],
-    "C13": ["gen/SyncEnc.v", "gen/SyncDec.v", "gen/SyncMisc.v", "gen/SyncEffects.v", "gen/SyncWire.v"],
-    "C14": ["gen/SyncDec.v", "gen/SyncMisc.v", "gen/SyncEffects.v"],
-    "C15": ["gen/SyncWire.v"],
-    "C16": ["gen/GenConsts.v", "gen/SyncEnc.v", "gen/SyncDec.v", "gen/SyncMisc.v", "gen/SyncAcc.v", "gen/SyncWire.v"],
+    "C13": ["gen/SyncEnc.v", "gen/SyncDec.v", "gen/SyncMisc.v", "gen/SyncEffects.v", "gen/SyncWire.v", "gen/SyncWireDec.v"],
+    "C14": ["gen/SyncDec.v", "gen/SyncMisc.v", "gen/SyncEffects.v", "gen/SyncWireDec.v"],
+    "C15": ["gen/SyncWire.v", "gen/SyncWireDec.v"],
+    "C16": ["gen/GenConsts.v", "gen/SyncEnc.v", "gen/SyncDec.v", "gen/SyncMisc.v", "gen/SyncAcc.v", "gen/SyncWire.v", "gen/SyncWireDec.v"],
     "C17": ["gen/SyncString.v", "gen/SyncAcc.v", "gen/SyncWf.v"],
     "C18": ["gen/SyncEnc.v", "gen/SyncAcc.v", "gen/SyncDump.v", "gen/SyncString.v", "gen/SyncWire.v"],
-    "C19": ["gen/SyncEnc.v", "gen/SyncDec.v", "gen/SyncAcc.v", "gen/SyncDump.v", "gen/SyncString.v", "gen/SyncWire.v"],
+    "C19": ["gen/SyncEnc.v", "gen/SyncDec.v", "gen/SyncAcc.v", "gen/SyncDump.v", "gen/SyncString.v", "gen/SyncWire.v", "gen/SyncWireDec.v"],
 }
 
 
